@@ -100,14 +100,13 @@ theorem multiply_ok (o0 o1 : MPO R) (w0 : o0.wellFormed = true) (w1 : o1.wellFor
     have sp := sparse_mulT X Y o0.qd _ _ _ _ e x2 x3 y2 y3 xs ys
     simp only [hX, hY]
     rw [MPS.getD_map_range _ _ i (by omega), MPS.getD_map_range _ _ (i + 1) (by omega)]
-    simp only [ne_eq, e, not_true_eq_false, if_false]
-    trace_state
+    rw [if_neg (not_not.2 e)]
     refine ⟨(mulT X Y).tab, ?_⟩
     have sp' : QN.isSparseT4 (⟨X.d0, Y.d1, X.d2 * Y.d2, X.d3 * Y.d3, fun s t a b =>
         sumRange X.d1 fun u => X.f s u (a / Y.d2) (b / Y.d3) * Y.f u t (a % Y.d2) (b % Y.d3)⟩ : T4 R).tab o0.qd
         (QN.flatten2 (o0.qD.getD i []) (o1.qD.getD i []))
         (QN.flatten2 (o0.qD.getD (i + 1) []) (o1.qD.getD (i + 1) [])) = true := sp
-    simp only [sp', if_true]
+    rw [sp']
     rfl
 
 end Ptn.MPO
